@@ -217,6 +217,7 @@ class TemplateSet:
         self.calls: list[tuple[str, str, list[str]]] = []     # (template, call text, guards)
         self.includes: dict[str, list[str]] = {}
         self.macros: dict[tuple[str, str], nodes.Macro] = {}
+        self.sets: dict[tuple[str, str], tuple] = {}     # (template, name) -> (expression, filters) of {% set %}
         self.parsed: dict[str, nodes.Template] = {}
         self.tags: list[tuple[str, str, list[str], list[tuple[str, str]]]] = []
 
@@ -275,6 +276,9 @@ class TemplateSet:
                                     active | {(name, item.node.name)})
                 else:
                     base, filters = split_filters(item)
+                    if isinstance(base, nodes.Name) and (name, base.name) in self.sets:
+                        sbase, sfilters = self.sets[(name, base.name)]
+                        base, filters = sbase, list(sfilters) + list(filters)
                     before = items[i - 1].data if i > 0 and isinstance(items[i - 1], nodes.TemplateData) else ''
                     after = items[i + 1].data if i + 1 < len(items) and isinstance(
                         items[i + 1], nodes.TemplateData) else ''
@@ -323,6 +327,10 @@ class TemplateSet:
         if isinstance(n, (nodes.Assign,)):
             for c in n.node.find_all(nodes.Call):
                 self.calls.append((name, expr_text(c), list(guards)))
+            # {% set x = expr|filters %}: a later {{ x }} writes that expression through those filters
+            if isinstance(n.target, nodes.Name):
+                base, filters = split_filters(n.node)
+                self.sets[(name, n.target.name)] = (base, filters)
             return st
         if isinstance(n, nodes.Macro):
             if n.defaults:
@@ -462,8 +470,15 @@ def collect_tags(ts: TemplateSet, root: str) -> list[TagOcc]:
                     if isinstance(item, nodes.TemplateData):
                         feed_text(item.data, name, item.lineno, guards)
                     else:
+                        if isinstance(item, nodes.Call) and isinstance(item.node, nodes.Name) \
+                                and (name, item.node.name) in ts.macros:
+                            walk(ts.macros[(name, item.node.name)].body, name, guards)
+                            continue
                         if w.st.mode in (ATTR_DQ, ATTR_SQ) and w.cur_attr is not None:
                             base, filters = split_filters(item)
+                            if isinstance(base, nodes.Name) and (name, base.name) in ts.sets:
+                                sbase, sfilters = ts.sets[(name, base.name)]
+                                base, filters = sbase, list(sfilters) + list(filters)
                             w.cur_attr.value_exprs.append(
                                 Sink(name, root, item.lineno, expr_text(base), filters, item,
                                      list(guards), w.st.mode, w.st.tag, w.st.attr,
